@@ -116,6 +116,13 @@ def load_sources(ctx, n_mut_per_file, include_known=True, gen=0, pid=None):
             res.append(("%s~%s" % (name, desc), t2, "mutant"))
     if gen:
         import wgen
+        # operator grid (see lib/wgen.py): thorough = every operator at both widths, 6 range pairs; quick = u32, 3 range pairs
+        if ctx.tier == "thorough":
+            grid = wgen.opgrid_programs(random.Random(ctx.seed * 31 + 7))
+        else:
+            grid = wgen.opgrid_programs(random.Random(ctx.seed * 31 + 7), per_op=3, widths=("u32",))
+        for name, text in grid:
+            res.append((name, text, "opgrid"))
         for k in range(gen):
             res.append(("gen%04d_%d" % (k, ctx.seed), wgen.generate(random.Random(ctx.seed * 100003 + k)), "generated"))
     return res
@@ -150,7 +157,7 @@ def prepare(ctx, tools, sources, max_in=3, max_inputs=8, max_choices=3, dstcap=3
             return ("rej", name, origin, d["error"])
         p = wcore.Prog(d, pkg, text)
         out, why = wcore.enrich(p, random.Random(ctx.seed * 7919 + k), max_in=max_in, max_inputs=max_inputs,
-                                max_choices=max_choices, dstcap=dstcap)
+                                max_choices=max_choices, dstcap=dstcap, allargs=bool(re.search(r"^// wcore:.*\ballargs\b", text, re.M)))
         if out is None:
             return ("skip", name, origin, why)
         c = subprocess.run([tools["wuffs-c"], "gen", "-package_name", pkg, src], capture_output=True, text=True, timeout=120)
@@ -162,6 +169,10 @@ def prepare(ctx, tools, sources, max_in=3, max_inputs=8, max_choices=3, dstcap=3
         for f in out["funcs"]:
             f["resum"] = res[f["name"]]
         out["name"], out["origin"], out["src"] = name, origin, text
+        # directive of a corpus program: `// wcore: maxcalls=1` (histories of one public call)
+        m = re.search(r"^// wcore:.*\bmaxcalls=(\d+)", text, re.M)
+        if m:
+            out["maxcalls"] = int(m.group(1))
         return ("ok", name, origin, out)
 
     with concurrent.futures.ThreadPoolExecutor(max_workers=8) as ex:
